@@ -1115,8 +1115,10 @@ func (e *e1) checkSegmentMedia(s string, id uint64, ms *MSeg, body []byte, bad f
 				rate := int64(cfg.Tracks[ti].ClockRate())
 				wd := truncDiv(w.DTS*90000, rate)
 				wp := truncDiv((w.DTS+w.PTSOff)*90000, rate)
+				// a time stamp whose 90 kHz value is a whole number must come out exactly (floor,
+				// round and ceil agree there); otherwise one tick of rounding freedom
 				tol := int64(0)
-				if rate != 90000 {
+				if rate != 90000 && !w.Exact90 {
 					tol = 1
 				}
 				if absI(mod33(g.DTS)-mod33(wd)) > tol || absI(mod33(g.DTS+g.PTSOff)-mod33(wp)) > tol {
@@ -1538,11 +1540,12 @@ func (e *e1) probe(s string, x *m3u8x.XMedia, bad func(string, string, ...any) b
 			}
 		}
 		if r.Status == 200 && len(r.Body) > 0 {
-			prop := "C05"
+			// an expired URI that still resolves breaks C05 (last sentence) and C18 alike
+			stop := false
 			if strings.Contains(u, fmt.Sprintf("seg%d", first-1)) {
-				prop = "C18"
+				stop = bad("C18", "URI %s, which has left the window (msn %d..%d), still returns %d bytes", u, first, last, len(r.Body))
 			}
-			if bad(prop, "URI %s, which is unknown or has left the window (msn %d..%d), still returns %d bytes", u, first, last, len(r.Body)) {
+			if bad("C05", "URI %s, which is unknown or has left the window (msn %d..%d), still returns %d bytes", u, first, last, len(r.Body)) || stop {
 				return
 			}
 		}
